@@ -31,6 +31,15 @@ def cells(tier):
         out.append(dict(rel="decouple", **base))
         out.append(dict(rel="positron", process="NC", **base))
         out.append(dict(rel="positron", process="EM", **base))
+    # A': the same two relations in the massive schemes (light/total pick up the 'missing' heavy-quark terms from NNLO on)
+    for kind, flav, (sch, nf, zm), pto in itertools.product(cm.KINDS, ["light", "total", "bottom"],
+                                                             [("FFNS", 3, (False, False, False)), ("FFN0", 3, (False, False, False)), ("FONLL-FFNS", 4, (True, False, True))],
+                                                             [1, 2]):
+        if q and (nf + pto + len(kind) + len(flav) + len(sch)) % 3 and not (kind == "F2" and flav == "light" and sch == "FFNS" and pto == 2):
+            continue
+        base = dict(obs=f"{kind}_{flav}", nf=nf, pto=pto, scheme=sch, ZMq=zm)
+        out.append(dict(rel="decouple", **base))
+        out.append(dict(rel="positron", process="NC", **base))
     # C: charge conjugation of the CC beams
     for kind, flav, (sch, nf, zm), pto in itertools.product(
             ["F2", "FL", "F3"], ["light", "total", "charm", "bottom", "charmlight"],
